@@ -280,3 +280,32 @@ CHECKS["C10"] = {
     "outside": "symbolic instants (the NTP conversion divides by 10^9; two concrete instants incl. the last second of NTP era 0); more than 3 reports per batch",
     "assumptions": PFCP_ASSUME + FWD_ASSUME,
 }
+
+CHECKS["C20"] = {
+    "dep_overlays": NL_OV, "extra_pkgs": ["internal/forwarder/perio"],
+    "sym_overlays": {"/root/go/pkg/mod/github.com/hashicorp/go-version@v1.6.0/version.go": "overlays/go-version/version.go"},
+    "no_init_pkgs": ["github.com/hashicorp/go-version"],
+    "models": dict(FWD_MODELS, **{
+        "github.com/hashicorp/go-version.NewVersion": "github.com/hashicorp/go-version.zzModelNewVersion",
+        "(*github.com/hashicorp/go-version.Version).Compare": "github.com/hashicorp/go-version.zzModelCompare",
+        "github.com/free5gc/go-upf/internal/forwarder.OpenGtp5g": "github.com/free5gc/go-upf/internal/forwarder.zzModelOpenGtp5g",
+        "os.ReadFile": "github.com/free5gc/go-upf/pkg/factory.zzModelReadFile",
+        "gopkg.in/yaml.v2.Unmarshal": "github.com/free5gc/go-upf/pkg/factory.zzModelUnmarshal",
+        "github.com/asaskevich/govalidator.ValidateStruct": "github.com/free5gc/go-upf/pkg/factory.zzModelValidateStruct",
+    }),
+    "no_native_entries": ["ZZ_C20_NewDriver", "ZZ_C20_ReadConfig"],
+    "jobs": {
+        "quick": [{"pkg": "internal/forwarder", "entries": ["ZZ_C20_*"], "witnesses": 8, "max_paths": 100000},
+                  {"pkg": "pkg/factory", "entries": ["ZZ_C20_*"], "witnesses": 2, "max_paths": 100000}],
+        "thorough": [{"pkg": "internal/forwarder", "entries": ["ZZ_C20_*"], "witnesses": 24, "max_paths": 100000},
+                     {"pkg": "pkg/factory", "entries": ["ZZ_C20_*"], "witnesses": 2, "max_paths": 100000}],
+    },
+    "covers": {"all": ["ZZ_C20_Version:C20.version.accepted", "ZZ_C20_Version:C20.version.rejected", "ZZ_C20_VersionFaults:C20.version.faults.done",
+                       "ZZ_C20_NewDriver:C20.driver.started", "ZZ_C20_NewDriver:C20.driver.rejected", "ZZ_C20_NewDriver:C20.driver.open-failed",
+                       "ZZ_C20_ReadConfig:C20.readconfig.accepted", "ZZ_C20_ReadConfig:C20.readconfig.rejected"]},
+    "bounds": {"quick": "version strings [v]X.Y.Z with 1-2 symbolic digits per field (16 templates) through the real Gtp5g.checkVersion / gtp5gnl.GetVersion / DecodeVersion and go-version's LessThan / GreaterThanOrEqual, oracle = the property's window hard-wired; kernel faults; NewDriver over 5 configuration shapes x open success/failure with a symbolic MTU; ReadConfig with a symbolic failure Boolean per stage",
+               "thorough": "same"},
+    "outside": "PARTIAL: which YAML documents yaml.v2 and govalidator accept (struct tags interpreted through reflection) is not decided - see DESIGN.md section 7; pre-release / metadata version suffixes; versions with more than 2 digits per field or other than 3 fields",
+    "assumptions": FWD_ASSUME + ["go-version NewVersion/Compare replaced in the engine by Go-source models (overlays/go-version/version.go = the original file plus the models); the version harness is replayed natively against the real library",
+                                 "OpenGtp5g, os.ReadFile, yaml.Unmarshal, govalidator.ValidateStruct replaced in the engine by recording/symbolic models; these two harnesses have no native replay (the real functions need the kernel module / the file system)"],
+}
